@@ -482,6 +482,11 @@ func (p *c20) Run(i int) (res fw.Result) {
 		key := "c20:inj:" + u.name + ":" + what
 		in := map[string]interface{}{"source": src, "injected": what}
 		if err == nil {
+			if strings.HasPrefix(what, "stray closing bracket") {
+				// rejection is promised for the three listed kinds only; for any other error only its position is
+				res.AddClass("injection-accepted-not-claimed")
+				return
+			}
 			res.Fail("accepted", key, fmt.Sprintf("%s: the source is accepted without error", what), in)
 			return
 		}
@@ -734,7 +739,7 @@ func (p *c20) runNamed(res *fw.Result, j int) {
 }
 
 func (p *c20) Rule() string {
-	return "four workloads. (a) positions: seeded templates in which every name, number, string and text run is unique, spelled with line breaks everywhere (LF, CRLF, blank lines inside tags; newlines inside text, strings, interpolated strings (before and after the interpolation), comments, verbatim bodies; trim markers; both quote kinds; a third of the templates start with a byte order mark, two of them, a NUL, a lone CR, NBSP or a zero-width space as ordinary text); every TextNode, PrintNode, tag node (if/elseif, for, set, block, filter, macro, embed and its blocks, include, import, from, use, do, extends), NameExpr, NumberExpr and StringExpr of the parsed tree must report the (1-based line, 0-based byte column) of its anchor as recorded by the speller (unique content is looked up directly, tag nodes must sit on an anchor of their kind; a string may report its quote or its first content byte). (b) truncation: EVERY byte offset of every injection template and of generated templates: when a reference scanner says the cut is inside a delimiter pair or an open if/for/block/set/filter/macro/embed/verbatim body, parsing the prefix must fail. (c) injection: for each of the 41 tag/expression templates at 3 placements: an illegal character '@' at EVERY token boundary, a surplus literal before EVERY closing delimiter, a stray ')' or ']' at EVERY token boundary where no bracket is open, an unknown tag at EVERY statement position; the source must be rejected with the error located exactly at the injected token. (d) a broken template (8 kinds of error, 5 names) loaded directly and through include, extends, import, embed, use, from and a nested include in a loop: the error must identify the template by name. Non-trivial (positions) = an anchor on a line >1; the enumerated workloads are distinct by construction."
+	return "four workloads. (a) positions: seeded templates in which every name, number, string and text run is unique, spelled with line breaks everywhere (LF, CRLF, blank lines inside tags; newlines inside text, strings, interpolated strings (before and after the interpolation), comments, verbatim bodies; trim markers; both quote kinds; a third of the templates start with a byte order mark, two of them, a NUL, a lone CR, NBSP or a zero-width space as ordinary text); every TextNode, PrintNode, tag node (if/elseif, for, set, block, filter, macro, embed and its blocks, include, import, from, use, do, extends), NameExpr, NumberExpr and StringExpr of the parsed tree must report the (1-based line, 0-based byte column) of its anchor as recorded by the speller (unique content is looked up directly, tag nodes must sit on an anchor of their kind; a string may report its quote or its first content byte). (b) truncation: EVERY byte offset of every injection template and of generated templates: when a reference scanner says the cut is inside a delimiter pair or an open if/for/block/set/filter/macro/embed/verbatim body, parsing the prefix must fail. (c) injection: for each of the 41 tag/expression templates at 3 placements: an illegal character '@' at EVERY token boundary, a surplus literal before EVERY closing delimiter, a stray ')' or ']' at EVERY token boundary where no bracket is open, an unknown tag at EVERY statement position; the source must be rejected (for the stray bracket: if it is rejected) with the error located exactly at the injected token. (d) a broken template (8 kinds of error, 5 names) loaded directly and through include, extends, import, embed, use, from and a nested include in a loop: the error must identify the template by name. Non-trivial (positions) = an anchor on a line >1; the enumerated workloads are distinct by construction."
 }
 
 func (p *c20) Assumptions() []string {
